@@ -45,6 +45,37 @@ CHECKS = {
    note="'Number of files' is read as regular files left on disk. Store method only (no deflate), nesting depth 1, at most 3 entries, in-memory backend. Digits of symbolic integers inside formatted error messages are an opaque token.",
    technique="symbolic execution of go/ssa + SMT (QF_BV) with symbolic limits over enumerated real archives; native replay",
    design="5/C03"),
+
+ "C01": dict(
+   text="Bounded exploration of the real lock protocol (TryLock, Unlock, ReleaseIfStale/IsStale, the Rm/Exists/IsEmpty/CleanDir code beneath, real retry-go and context, heartbeat goroutines on a virtual clock) over a shared POSIX-style harness filesystem with atomic Mkdir, 3 contenders: sequential acquire/release histories (at most one holder, free lock acquired, held lock reported locked); one contender's complete acquire placed inside another's release before its k-th filesystem operation for EVERY k, followed by a third contender's acquire (no two holders; a release never destroys a later lock); the same inside a stale-lock takeover with override; no mutation by a failed acquire without override. Two known-finding regions are recorded and everything outside them is shown to hold.",
+   note="Interleavings are limited to one preemption with an atomic interferer (natively replayable as a plain test); the harness filesystem's atomic Mkdir is the stated assumption about the backend. Not multi-process, not the OS filesystem.",
+   technique="symbolic execution of go/ssa with DFS over interference positions (bounded model checking of the protocol), native replay",
+   design="5/C01"),
+ "C04": dict(
+   text="Bounded exhaustive exploration of Rm / RemoveWithContext / CleanDirWithContext (real code incl. Exists/IsDir/IsEmpty/Ls) over EVERY tree of the shape /s/t/{a,b}[/x] whose entries are absent, files, read-only files, directories or symbolic links to an outside directory, an outside file, a nested outside directory, the tree root (loop) or nothing (dangling), on a harness filesystem with POSIX link semantics: nothing outside the tree changes; success means the tree (for CleanDir its content) is gone, dangling links included; handles balanced. Two known-finding regions (links followed into outside directories; links surviving a 'successful' removal) are recorded; outside them the assertions hold.",
+   note="The POSIX link semantics is that of the harness filesystem vLinkFs (ELOOP after 3 hops); garbage collection and pattern-protected removal with links are outside.",
+   technique="symbolic execution of go/ssa with DFS over tree shapes (bounded model checking), native replay",
+   design="5/C04"),
+ "C07": dict(
+   text="Bounded exploration with the REAL archive code interpreted end to end: Zip (archive/zip writer + compress/flate) then Unzip on afero's MemMapFs for every tree of up to 2 top-level entries (files with 3 contents, empty directory, directory with a file; names incl. leading/doubled dots): same relative paths, kinds and contents, file mtimes preserved, returned list names exactly the created entries, source untouched, handles balanced; the read-only zip filesystem view (afero zipfs + ReadOnlyFs, interpreted) exposes the same paths/kinds/sizes/contents, refuses 7 kinds of mutating call without changing anything, and after Close fails with the 'failed condition' kind. Known-finding regions: names containing '..', Rm of an empty directory on the view.",
+   note="Tiny contents only; tar view, unicode names and the OS filesystem are outside.",
+   technique="symbolic execution of go/ssa (real archive/zip, flate, zipfs) with DFS over tree shapes, native replay",
+   design="5/C07"),
+ "C08": dict(
+   text="Bounded exhaustive exploration of every exclusion-aware operation (walk, ls, recursive ls, tree listing, sub-directories, copy, clean, remove; real regexp package interpreted) over EVERY tree of depth <= 2 on names {a,b} (thorough {a,b,ab}) and 0..1 (2) patterns from {a,b,ab,a.*,.*b,[ab]}, against the statement's two-sided reference (full match of a component => protected with everything beneath; no component containing a match => must be processed); invalid patterns rejected with the 'invalid' kind before anything is touched. Known-finding regions: protection lost at depth >= 2 in clean/remove; invalid pattern ignored on an empty directory.",
+   note="Zip with exclusions and patterns beyond the fixed set are outside; in-memory backend only.",
+   technique="symbolic execution of go/ssa with DFS over trees x patterns x operations (bounded model checking), native replay",
+   design="5/C08"),
+ "C09": dict(
+   text="(1) safeio.ReadAtMost / CopyDataWithContext / CopyNWithContext with the real io, bytes.Buffer and contextio code: source of 0..3 (thorough 4) FULLY symbolic bytes, every chunking (incl. a zero-length read), failure after k bytes, cancellation before the call or inside the j-th Read, failing/short writer, every max/n in [-1,L+1]: delivered bytes are an exact prefix, success delivers exactly min(L,max), CopyN transfers exactly n or errors, no Read after the context ended, no spurious failure, kinds cancelled/EOF. (2) 22 context-accepting filesystem entry points with an already cancelled / expired context: the right kind, zero mutating backend operations, unchanged tree, balanced handles. (3) 11 of them with the context cancelled after the j-th backend operation (j in 1..12) over 8 (12) files: at most 40 further backend operations whatever remains. (4) limited file reads refuse larger files as 'too large'.",
+   note="Lengths up to 2^20 and real buffer boundaries, WriterTo/ReaderFrom fast paths and the OS filesystem are outside. One genuine defect (CopyToDirectoryWithContext) was found here and fixed.",
+   technique="symbolic execution of go/ssa + SMT (QF_BV) on symbolic byte streams; DFS over scripts and entry points; native replay",
+   design="5/C09"),
+ "C17": dict(
+   text="Bounded exploration of IsStale / areHeartBeatFilesAllStale / isStale / ReleaseIfStale / TryLock(override) and the real heartBeat goroutine on a virtual clock: while the holder lives, 1..3 (thorough 5) observations at instants up to ~33 periods never see the lock stale, never release or take it over; a holder dying at each of four points is reported stale after 2 periods + 2 ms and ReleaseIfStale + acquire then succeed; at the boundary (ages 0..500 ms of the last sign of life, heartbeat file present or not, directory age irrelevant) stale implies age > 2 periods and age >= 2 periods + 1 ms implies stale; a failing backend never makes a lock look stale.",
+   note="Virtual time: filesystem and scheduling latency are zero, so 'live lock never stale' is claimed for an ideal scheduler only.",
+   technique="symbolic execution of go/ssa on a cooperative scheduler with a virtual clock (bounded model checking), native replay",
+   design="5/C17"),
 }
 NA = {}
 def main():
